@@ -154,6 +154,42 @@ def run_stage_prop(prop, tier, seed, t0):
     for c, n in kcount.items():
         k = known[KNOWN_CLASS[c]]
         log("KNOWN-FINDING: property=%s %s (%d of %d runs in this batch)" % (prop, k["what"], n, len(runs)))
+    exact_order = []
+    if prop == "C15":
+        # exact pass: pairs of FLOAT events at one point whose edges are nearly (not exactly) collinear - the tip of a valid sliver -
+        # in power-of-two frames, both orders of Ord::cmp and compare_segments decided exactly on the bit patterns
+        # (TraceOrderExact.tla / FloatGeometry.tla); the lattice families above cannot express such a pair
+        for ftype, nex in (("f64", 30000 if tier == "quick" else 600000), ("f32", 15000 if tier == "quick" else 300000)):
+            epath = os.path.join(wd, "ordexact-%s.ndjson" % ftype)
+            vlib.vh(["float-order-exact", "--count", nex, "--seed", seed + 17] + (["--f32"] if ftype == "f32" else []), epath)
+            cfg4 = "SPECIFICATION Spec\nINVARIANTS\n C15_ExactOnFloats\n HarnessHonest\nCHECK_DEADLOCK TRUE\n"
+            out4, dt4 = vlib.run_tlc_trace("TraceOrderExact.tla", cfg4, os.path.join(wd, "trordexact-" + ftype), epath, timeout=6000)
+            res4 = vlib.parse_tlc(out4, {"C15_ExactOnFloats", "HarnessHonest"})
+            if res4["tool_errors"] or "HarnessHonest" in res4["violated"]:
+                raise ToolError("TraceOrderExact: %s %s" % (res4["tool_errors"][:3], res4["violated"]))
+            verdicts = re.findall(r'<<"ORDEXACT", "(\w+)", (\d+), (-?\d+)>>', out4)
+            bad = sorted({int(i) for (k, i, o) in verdicts if k == "fail"})
+            skipped = {int(i) for (k, i, o) in verdicts if k == "skip"}
+            if bool(bad) != ("C15_ExactOnFloats" in res4["violated"]):
+                raise ToolError("inconsistent TraceOrderExact output")
+            erecs = {r["id"]: r for r in vlib.load_sessions(epath)}
+            nrec = len(erecs)
+            # anti-vacuity: pairs that a naive float cross product calls collinear although the exact determinant is not zero
+            nnear = sum(1 for r in erecs.values() if r["nc"] and r["mode"] != 7 and r["id"] not in skipped)
+            if nrec < nex // 4 or nnear * 50 < nrec:
+                raise ToolError("vacuity: %d float event pairs, %d of them collinear for naive float arithmetic only" % (nrec, nnear))
+            for fid in bad[:10]:
+                p = os.path.join(vlib.OUT, "replays", "C15-ordexact-%s-%d.json" % (ftype, fid))
+                json.dump(erecs[fid], open(p, "w"))
+                log("VIOLATION property=C15 replay=%s" % p)
+                log("  float event pair (mode %s) %s" % (erecs[fid]["mode"], json.dumps(erecs[fid])[:400]))
+            nviol += len(bad)
+            res["distinct"] += res4["distinct"]
+            res["generated"] += res4["generated"]
+            exact_order.append({"exact_float_event_pairs": nrec, "F": ftype, "failures": len(bad), "collinear_for_naive_float_arithmetic_only": nnear,
+                                "exactly_collinear_same_operand_skipped": len(skipped), "tlc_s": round(dt4, 1)})
+            log("[C15] exact pass %s: %d float event pairs at a common point decided exactly on their bit patterns: %d failures, %d collinear only for naive float arithmetic, %d not judged" % (ftype, nrec, len(bad), nnear, len(skipped)))
+            os.remove(epath)
     for r in layer_m:
         res["distinct"] += r["states"]
         res["generated"] += r["transitions"]
@@ -165,7 +201,7 @@ def run_stage_prop(prop, tier, seed, t0):
         "evaluations": len(runs), "distinct_nontrivial": nontriv, "sub_segments_judged": nsub,
         "order_pairs_judged": sum(len(r["cmp0"]["pairs"]) + len(r["cmp1"]["pairs"]) + len(r["seg"]) + len(r["seg0"]) for r in runs) if prop == "C15" else 0,
         "rule": "one evaluation = one recorded run of fill_queue + subdivide (+ order matrices) on an operand pair and operation; non-trivial = subdivision processed more events than queue filling created (at least one division)",
-        "clauses": clauses, "known_finding_runs": kcount, "tlc_seconds": round(dt, 1), "layer_m": layer_m,
+        "clauses": clauses, "known_finding_runs": kcount, "tlc_seconds": round(dt, 1), "layer_m": layer_m, "exact_float_order_pass": exact_order,
     }
     vlib.write_evidence(prop, tier, seed, "model_checking", cov, time.time() - t0, nviol, ASSUME)
     log("[%s] %s: %d stage runs (%d sub-segments) judged by TLC in %.0fs, %d violations, known-finding runs %s, %.0fs" % (prop, tier, len(runs), nsub, dt, nviol, kcount, time.time() - t0))
